@@ -184,6 +184,9 @@ class RungeKuttaIntegrator(TableauIntegrator, abc.ABC):
             timestep, (self.dTime, self.dState) = self.step(rhs, initial_time, initial_state, constants,
                                                             current_timestep)
         except (*D.linear_algebra_exceptions, ValueError):
+            if not self.is_implicit:
+                # an explicit scheme has no stage solver that could have failed: the exception comes from the user's right-hand side
+                raise
             self._requires_high_precision = True
             timestep, (self.dTime, self.dState) = self.step(rhs, initial_time, initial_state, constants,
                                                             current_timestep)
@@ -213,6 +216,8 @@ class RungeKuttaIntegrator(TableauIntegrator, abc.ABC):
                         timestep, (self.dTime, self.dState) = self.step(rhs, initial_time, initial_state, constants,
                                                                              timestep if D.ar_numpy.abs(timestep) < D.ar_numpy.abs(current_timestep) else current_timestep)
                     except (*D.linear_algebra_exceptions, ValueError):
+                        if not self.is_implicit:
+                            raise
                         self._requires_high_precision = True
                         timestep, (self.dTime, self.dState) = self.step(rhs, initial_time, initial_state, constants,
                                                                              timestep if D.ar_numpy.abs(timestep) < D.ar_numpy.abs(current_timestep) else current_timestep)
